@@ -145,17 +145,53 @@ pub fn c10() -> Vec<(&'static str, Vec<Op>)> {
     ]
 }
 
-pub fn c07() -> Vec<(&'static str, Vec<Op>)> {
-    vec![(
-        "F11-rename-write-sync-crash",
-        vec![
-            w("/a", 4, 0),
-            sync_all("/a"),
-            sync_dir("/"),
-            mv("/a", "/b"),
-            wat("/b", 0, 2, 25),
-            sync_all("/b"),
-            Op::Crash,
-        ],
-    )]
+pub fn c07() -> Vec<(&'static str, crate::real::Cfg, Vec<Op>)> {
+    use crate::real::Cfg;
+    vec![
+        // DESIGN §7 F11 (zone `write-after-rename`): data synced through the
+        // new name of an unsynced rename is lost
+        (
+            "F11-rename-write-sync-crash",
+            Cfg::default(),
+            vec![
+                w("/a", 4, 0),
+                sync_all("/a"),
+                sync_dir("/"),
+                mv("/a", "/b"),
+                wat("/b", 0, 2, 25),
+                sync_all("/b"),
+                Op::Crash,
+            ],
+        ),
+        // conforming regression scenarios
+        (
+            "atomic-replace-pattern",
+            Cfg::default(),
+            vec![
+                w("/a", 4, 0),
+                sync_all("/a"),
+                sync_dir("/"),
+                w("/b", 6, 3),
+                sync_all("/b"),
+                sync_dir("/"),
+                mv("/b", "/a"),
+                sync_dir("/"),
+                Op::Crash,
+            ],
+        ),
+        (
+            "unsynced-everything-rolled-back",
+            Cfg::default(),
+            vec![
+                w("/a", 4, 0),
+                sync_all("/a"),
+                sync_dir("/"),
+                wat("/a", 2, 4, 9),
+                mkdir("/d"),
+                w("/d/a", 2, 1),
+                rm("/a"),
+                Op::Crash,
+            ],
+        ),
+    ]
 }
